@@ -8,11 +8,12 @@ note = a[4] if len(a) > 4 and not a[4].startswith('--') else ''
 ex, subs = 1, 'PENDING'
 if '--exit' in a: ex = int(a[a.index('--exit') + 1])
 if '--subs' in a: subs = a[a.index('--subs') + 1]
+rnd = int(a[a.index('--round') + 1]) if '--round' in a else 9
 prop = name.split('-')[0]
 m = {
  "property": prop, "change": change, "needs_to_manifest": needs,
  "produced_by": "fresh sub-agent given only the property text, one-line descriptions of the earlier seeded changes to avoid, a description of what kind of harness it is up against (round >= 5; round 9 additionally asked for cooperating sites, injected faults, untouched clauses, rare option combinations) and its own scratch worktree of /repo HEAD",
- "round": 9,
+ "round": rnd,
  "confirmed": {"compiles": True, "pinned_suite_passes_with_change": True, "demo_fails_with_change": True, "demo_passes_without_change": True,
   "how": f"seeded/verify.sh {prop} {name} <agent dir> <demo destination> seeddemo: scratch copy of /repo, git apply patch.diff, go build ./..., go test -vet=off -count=1 ./... (no FAIL), demo with and without the change, then VERIF_REPO=<scratch> ./check {prop} quick"},
  "check_result": {"command": f"./check {prop} quick (against the changed tree)", "exit": ex, "caught_by_subchecks": subs, "missed_at_first": missed},
